@@ -74,6 +74,8 @@ struct Plan {
     cqn: u32,
     clones: usize,
     fds: usize,
+    /// Per AsyncFd: a direct descriptor (slot h of the ring's table) instead of a regular one.
+    direct: Vec<bool>,
     /// (fd the future borrows, or None for one that owns a SubmissionQueue; kind; starting state)
     ops: Vec<(Option<usize>, Kind, Ist)>,
     pools: usize,
@@ -86,6 +88,9 @@ const H14: &str = "abandoned-ops-beyond-cq-capacity";
 
 fn fake_fd(h: usize) -> i32 {
     1_000_000 + h as i32
+}
+fn base_fd(h: usize) -> i32 {
+    1_500_000 + h as i32
 }
 fn util_fd(b: usize) -> i32 {
     1_900_000 + b as i32
@@ -167,8 +172,8 @@ fn coq_plan(p: &Plan, lens: (usize, usize, usize)) -> String {
 
 fn json_plan(p: &Plan, kernel: &str) -> String {
     let mut s = format!(
-        "{{\"kernel\":\"{kernel}\",\"sq_entries\":{},\"cq_entries\":{},\"sq_clones\":{},\"fds\":{},\"ops\":[",
-        p.sqn, p.cqn, p.clones, p.fds
+        "{{\"kernel\":\"{kernel}\",\"sq_entries\":{},\"cq_entries\":{},\"sq_clones\":{},\"fds\":{},\"direct\":{:?},\"ops\":[",
+        p.sqn, p.cqn, p.clones, p.fds, p.direct
     );
     for (i, (on, k, st)) in p.ops.iter().enumerate() {
         if i > 0 {
@@ -281,7 +286,8 @@ fn gen_plan(r: &mut Rng) -> Plan {
             bufs.push(p);
         }
     }
-    let mut plan = Plan { sqn, cqn, clones, fds, ops, pools, bufs, events: Vec::new() };
+    let direct: Vec<bool> = (0..fds).map(|_| r.chance(1, 3)).collect();
+    let mut plan = Plan { sqn, cqn, clones, fds, direct, ops, pools, bufs, events: Vec::new() };
     let ring_bias = match r.below(4) {
         0 => 0, // ring first
         1 => 1, // ring (nearly) last
@@ -308,7 +314,7 @@ fn fixed_plan(perm: usize) -> Option<Plan> {
     if pos(Obj::Op(0)) > pos(Obj::Fd(0)) {
         return None;
     }
-    Some(Plan { sqn: 2, cqn: 2, clones: 1, fds: 1, ops: vec![(Some(0), Kind::Read, Ist::Inflight)], pools: 1, bufs: vec![], events })
+    Some(Plan { sqn: 2, cqn: 2, clones: 1, fds: 1, direct: vec![false], ops: vec![(Some(0), Kind::Read, Ist::Inflight)], pools: 1, bufs: vec![], events })
 }
 
 // ---------------------------------------------------------------------------------------------
@@ -396,11 +402,9 @@ fn kernel_result(k: Kind) -> i32 {
 /// Build the population and bring every operation into its starting state.
 fn build_world(p: &Plan, r: &mut Rng) -> World {
     simk::configure(simk::SetupConfig { sq_start: r.next() as u32, cq_start: r.next() as u32, ..Default::default() });
-    let mut ring = a10::Ring::config()
-        .with_submission_queue_size(p.sqn)
-        .with_completion_queue_size(p.cqn)
-        .build()
-        .expect("ring on the simulated kernel");
+    let cfg = a10::Ring::config().with_submission_queue_size(p.sqn).with_completion_queue_size(p.cqn);
+    let cfg = if p.direct.iter().any(|d| *d) { cfg.with_direct_descriptors(p.fds as u32 + 2) } else { cfg };
+    let mut ring = cfg.build().expect("ring on the simulated kernel");
     let ring_fd = simk::with(|s| s.fd);
     let mut maps = [(0usize, 0usize); 3];
     simk::with(|s| {
@@ -422,8 +426,41 @@ fn build_world(p: &Plan, r: &mut Rng) -> World {
     let clones: Vec<_> = (0..p.clones).map(|_| Some(sq.clone())).collect();
     let mut fds = Vec::new();
     for h in 0..p.fds {
-        simk::add_fake_fd(fake_fd(h));
-        fds.push(Some(Box::new(unsafe { a10::AsyncFd::from_raw_fd(fake_fd(h), sq.clone()) })));
+        if p.direct[h] {
+            // A direct descriptor in slot h of the ring's table, obtained the public way: a
+            // scripted to_direct_descriptor on a throw-away regular descriptor.
+            simk::add_fake_fd(base_fd(h));
+            let base = unsafe { a10::AsyncFd::from_raw_fd(base_fd(h), sq.clone()) };
+            let waker = Waker::noop();
+            let mut ctx = Context::from_waker(waker);
+            let fd = {
+                let mut fut = Box::pin(base.to_direct_descriptor());
+                assert!(fut.as_mut().poll(&mut ctx).is_pending());
+                setup_ring_poll(&mut ring);
+                simk::with(|s| {
+                    let q = s.inflight.iter().find(|q| q.sqe.opcode == abi::OP_FILES_UPDATE).expect("FILES_UPDATE in flight");
+                    let (req, addr) = (q.req, q.sqe.addr);
+                    // The kernel installs the descriptor in a free slot and writes the index back.
+                    unsafe { (addr as usize as *mut i32).write(h as i32) };
+                    if let Some(t) = s.files.as_mut() {
+                        t[h] = base_fd(h);
+                    }
+                    s.complete(req, 1, 0);
+                });
+                setup_ring_poll(&mut ring);
+                match fut.as_mut().poll(&mut ctx) {
+                    Poll::Ready(Ok(fd)) => fd,
+                    other => panic!("to_direct_descriptor did not complete: {:?}", other.map(|r| r.map(|_| ()))),
+                }
+            };
+            assert!(fd.kind() == a10::fd::Kind::Direct);
+            drop(base); // queues a CLOSE of the throw-away descriptor
+            setup_ring_poll(&mut ring); // ... which the kernel consumes here
+            fds.push(Some(Box::new(fd)));
+        } else {
+            simk::add_fake_fd(fake_fd(h));
+            fds.push(Some(Box::new(unsafe { a10::AsyncFd::from_raw_fd(fake_fd(h), sq.clone()) })));
+        }
     }
     // Pools: learn the group id and the two allocations from what the kernel was told.
     let mut pools = Vec::new();
@@ -581,6 +618,7 @@ fn sim_case(p: &Plan, r: &mut Rng, silent: &Arc<Mutex<Option<String>>>) -> Case 
     let mut pool_frees = vec![[0usize; 2]; p.pools];
     let mut unregistered = vec![0usize; p.pools];
     let mut fd_closes = vec![0usize; p.fds];
+    let mut sync_closes: Vec<usize> = Vec::new();
     let mut fd_after_ring = vec![false; p.fds];
     let mut op_dropped_running_after_ring = vec![false; p.ops.len()];
     let mut leftovers_at_ring_drop = false;
@@ -672,12 +710,20 @@ fn sim_case(p: &Plan, r: &mut Rng, silent: &Arc<Mutex<Option<String>>>) -> Case 
                 }
                 Ev::Consumed { sqe, .. } => {
                     if sqe.opcode == abi::OP_CLOSE && sqe.user_data == 3 {
-                        let h = (sqe.fd - fake_fd(0)) as usize;
-                        if h < p.fds {
+                        // A regular descriptor is closed by number, a direct one by slot (file_index = slot + 1).
+                        let (h, as_direct) = if sqe.file_index > 0 { ((sqe.file_index - 1) as usize, true) } else { ((sqe.fd - fake_fd(0)) as usize, false) };
+                        if h < p.fds && p.direct[h] == as_direct {
                             fd_closes[h] += 1;
                             obs.extend([2, 0, h as i128]);
+                            if as_direct {
+                                simk::with(|s| {
+                                    if let Some(t) = s.files.as_mut() {
+                                        t[h] = -1;
+                                    }
+                                });
+                            }
                         } else {
-                            pr.add(format!("{what}: CLOSE of descriptor {} which is no AsyncFd of the case", sqe.fd));
+                            pr.add(format!("{what}: CLOSE of descriptor {} / fixed slot {} which is no AsyncFd of the case", sqe.fd, sqe.file_index as i64 - 1));
                         }
                     } else if sqe.opcode == abi::OP_ASYNC_CANCEL {
                         match w.boxes.iter().position(|a| *a == (sqe.addr & !1) as usize) {
@@ -709,6 +755,13 @@ fn sim_case(p: &Plan, r: &mut Rng, silent: &Arc<Mutex<Option<String>>>) -> Case 
                                 obs.extend([3, 1, q as i128]);
                             }
                             None => pr.add(format!("{what}: unregistration of an unknown buffer group ({detail})")),
+                        }
+                    } else if *opcode == abi::REGISTER_FILES_UPDATE || *opcode == abi::REGISTER_FILES_UPDATE2 {
+                        // Synchronous close of a direct descriptor (submission queue full): "offset=<slot> fds=[-1]".
+                        let slot: Option<usize> = detail.strip_prefix("offset=").and_then(|x| x.split(' ').next()).and_then(|x| x.parse().ok());
+                        match slot {
+                            Some(h) if detail.ends_with("fds=[-1]") && h < p.fds && p.direct[h] => sync_closes.push(h),
+                            _ => pr.add(format!("{what}: io_uring_register(FILES_UPDATE, {detail}) does not clear the slot of a direct AsyncFd of the case")),
                         }
                     } else {
                         pr.add(format!("{what}: unexpected io_uring_register opcode {opcode}"));
@@ -760,9 +813,13 @@ fn sim_case(p: &Plan, r: &mut Rng, silent: &Arc<Mutex<Option<String>>>) -> Case 
                 }
             }
         }
+        for h in sync_closes.drain(..) {
+            fd_closes[h] += 1;
+            obs.extend([6, h as i128]);
+        }
         for fd in simk::take_closes() {
             let h = (fd - fake_fd(0)) as usize;
-            if h < p.fds {
+            if h < p.fds && !p.direct[h] {
                 fd_closes[h] += 1;
                 obs.extend([6, h as i128]);
             } else {
@@ -890,7 +947,7 @@ fn real_case(r: &mut Rng, heavy: bool) -> Case {
     let n_ops = if heavy { 5 + r.below(3) as usize } else { r.below(4) as usize };
     let n_pools = r.below(2) as usize;
     let clones = r.below(3) as usize;
-    let mut plan = Plan { sqn, cqn: 2 * sqn, clones, fds: n_fds, ops: Vec::new(), pools: n_pools, bufs: Vec::new(), events: Vec::new() };
+    let mut plan = Plan { sqn, cqn: 2 * sqn, clones, fds: n_fds, direct: vec![false; n_fds], ops: Vec::new(), pools: n_pools, bufs: Vec::new(), events: Vec::new() };
     for _ in 0..n_ops {
         let st = if heavy { Ist::Inflight } else { *r.pick(&[Ist::NotStarted, Ist::Queued, Ist::Inflight, Ist::Inflight]) };
         plan.ops.push((Some(r.below(n_fds as u64) as usize), Kind::Read, st));
